@@ -3,7 +3,34 @@
 def _c17(tier, seed):
     return [dict(name="c17", bin="c17", shards=16, timeout=1500)]
 
+
+def _fuzz(monitor, rule_nt):
+    def camps(tier, seed):
+        thorough = tier == "thorough"
+        return [
+            dict(name="fuzz_stream", kind="libfuzzer", bin="fuzz_stream", jobs=16,
+                 runs=(1500000 if thorough else 120000), max_total_time=(900 if thorough else 100),
+                 max_len=(16384 if thorough else 4096), seed_dirs=["build/seeds/fuzz_stream", "corpus/fuzz_stream"],
+                 dict="fuzz/http.dict", env={"VERIF_MONITOR": monitor}, timeout=(1500 if thorough else 300)),
+        ]
+    return camps
+
+STREAM_ASSUME = [
+    "callbacks never destroy a transaction from inside a callback (unsupported usage; destruction happens between calls)",
+    "decompression time limit neutralised by a constant gettimeofday (wall-clock dependence would make runs irreproducible)",
+    "libFuzzer campaigns are only approximately reproducible from -seed; the saved artifact is the reproducible unit",
+]
+
 CHECKS = {
+    "C01": dict(
+        bins=["fuzz_stream", "sreplay"], replay_bin="sreplay", replay_args=[], campaigns=_fuzz("C01", ""), level="exploration",
+        prepare="seeds",
+        rule=("coverage-guided histories decoded structure-aware (config x callback plan x two byte streams x op schedule incl. gaps, "
+              "close, tx destruction between calls, tx_freed) run under ASan+UBSan+LSan with exact-size chunk copies freed after each call; "
+              "non-trivial = history with >=2 data calls in which a REQUEST_HEADERS or RESPONSE_HEADERS callback fired; distinct by input hash "
+              "(capped at 400k per worker, so counted conservatively)"),
+        assumptions=STREAM_ASSUME,
+    ),
     "C17": dict(
         bins=["c17"], replay_bin="c17", campaigns=_c17, level="exploration",
         rule=("list: every op sequence over {push,pop,shift,replace} up to depth 11 (thorough 13) on capacities 1..3 (exhaustive BFS) "
